@@ -199,6 +199,24 @@ fn check_tape(tape: &[u8], gates: &Gates, codes: &[String], stats: &mut Stats, c
             }
         }
     }
+    // a path that does not exist at a random argument position: the invocation must fail
+    if choice.ratio(1, 3) {
+        let missing = dir.path.join("does_not_exist.st").to_string_lossy().to_string();
+        let mut args = paths.clone();
+        let at = choice.below(args.len() + 1);
+        args.insert(at, missing);
+        let mut a = vec!["check".to_string()];
+        a.extend(args);
+        if let Some(o) = observe_check(&a) {
+            if counting {
+                stats.class("check.with-missing-path");
+            }
+            channels_agree(&o, codes, "check with a missing path").map_err(|(k, d)| fail("channels", &k, d))?;
+            if o.status == Some(0) {
+                return Err(fail("missing-path", "exit-zero", format!("`check` exits 0 although argument #{} does not exist", at)));
+            }
+        }
+    }
     // echo / tokenize: exit 0 exactly when every file parses / tokenizes (in-process reference)
     let all_parse = files.iter().all(|f| crate::panicx::catch(|| ironplc_parser::parse_program(&f.text, &FileId::from_string("x"), &ParseOptions::default()).is_ok()).unwrap_or(false));
     let all_tok = files.iter().all(|f| crate::panicx::catch(|| ironplc_parser::tokenize_program(&f.text, &FileId::from_string("x"), &ParseOptions::default()).1.is_empty()).unwrap_or(false));
@@ -255,7 +273,35 @@ fn fixed_cases(rep: &mut Report, codes: &[String], gates: &Gates) {
     std::fs::create_dir_all(&empty).unwrap();
     let good = dir.write("good.st", b"PROGRAM p\nVAR\nx : INT;\nEND_VAR\nx := 1;\nEND_PROGRAM\n").to_string_lossy().to_string();
     let missing = dir.path.join("nope.st").to_string_lossy().to_string();
-    let mut cases: Vec<(&str, Vec<String>)> = vec![("missing path", vec!["check".into(), missing.clone()]), ("missing path + good file", vec!["check".into(), good.clone(), missing.clone()]), ("good file", vec!["check".into(), good.clone()])];
+    let good2 = dir.write("good2.st", b"PROGRAM p2\nVAR\ny : INT;\nEND_VAR\ny := 1;\nEND_PROGRAM\n").to_string_lossy().to_string();
+    let gooddir = dir.path.join("gooddir");
+    std::fs::create_dir_all(&gooddir).unwrap();
+    std::fs::write(gooddir.join("g.st"), b"PROGRAM p3\nVAR\nz : INT;\nEND_VAR\nz := 1;\nEND_PROGRAM\n").unwrap();
+    let gd = gooddir.to_string_lossy().to_string();
+    let mut cases: Vec<(&str, Vec<String>)> = vec![
+        ("missing path", vec!["check".into(), missing.clone()]),
+        ("good file + missing path", vec!["check".into(), good.clone(), missing.clone()]),
+        ("missing path + good file", vec!["check".into(), missing.clone(), good.clone()]),
+        ("good + missing + good", vec!["check".into(), good.clone(), missing.clone(), good2.clone()]),
+        ("missing path + directory", vec!["check".into(), missing.clone(), gd.clone()]),
+        ("directory + missing path", vec!["check".into(), gd.clone(), missing.clone()]),
+        ("good file", vec!["check".into(), good.clone()]),
+    ];
+    // echo / tokenize with a path that cannot be read: not every given file parses / tokenizes
+    for cmd in ["echo", "tokenize"] {
+        for args in [vec![missing.clone(), good.clone()], vec![good.clone(), missing.clone()]] {
+            let mut a = vec![cmd.to_string()];
+            a.extend(args);
+            let o = run_cli(&a, None);
+            if !o.timed_out {
+                rep.stats.case(true, hash_str(&format!("{:?}", a)));
+                rep.stats.class(&format!("fixed.{}-with-missing-path", cmd));
+                if o.status == Some(0) {
+                    rep.failures.push((Failure::new("fixed-case", "exit-vs-content", format!("`{} ...` exits 0 although one given path cannot be read", cmd), json!({"case": format!("{} with a missing path", cmd), "args": a})), vec![]));
+                }
+            }
+        }
+    }
     if gates.want("CHECK_EMPTY_SET") {
         cases.push(("empty directory", vec!["check".into(), empty.to_string_lossy().to_string()]));
         cases.push(("no arguments", vec!["check".into()]));
